@@ -571,18 +571,42 @@ def _pairs(a, b):
 FACADE = Facade()
 
 
-def _ident_float(x=0.0):
-    if isinstance(x, SV):
-        return x
-    return float(x)
+class _FloatMeta(type):
+    def __instancecheck__(cls, obj):
+        return isinstance(obj, float)
+
+    def __subclasscheck__(cls, sub):
+        return issubclass(sub, float)
 
 
-def _ident_int(x=0, *a):
-    if isinstance(x, SV):
-        if x.is_int:
+class _ident_float(float, metaclass=_FloatMeta):
+    """stands in for the builtin `float` inside analysed modules: identity on symbolic scalars"""
+
+    def __new__(cls, x=0.0):
+        if isinstance(x, SV):
             return x
-        return int(x)
-    return int(x, *a)
+        if isinstance(x, np.ndarray) and x.dtype == object and x.ndim == 0:
+            return _ident_float(x[()])
+        return float(x)
+
+
+class _IntMeta(type):
+    def __instancecheck__(cls, obj):
+        return isinstance(obj, int)
+
+    def __subclasscheck__(cls, sub):
+        return issubclass(sub, int)
+
+
+class _ident_int(int, metaclass=_IntMeta):
+    def __new__(cls, x=0, *a):
+        if isinstance(x, SV):
+            if x.is_int:
+                return x
+            return int(x)
+        return int(x, *a)
+
+    from_bytes = int.from_bytes
 
 
 @contextlib.contextmanager
